@@ -387,9 +387,19 @@ func TestC01(t *testing.T) {
 		// out there (the names they set / check belong to the inner hello); a target whose spec
 		// has no ECH extension cannot encode the offer and has to say so.
 		echFlavour := i%8 == 5 && j.single < 0
-		if echFlavour {
-			nEdits = 0
+		// ... except single edits of fields the outer hello carries as they are (client random,
+		// cipher suites, session id, an appended extension, ALPN): a third of those jobs, first
+		// visits only, also run over an ECH config list
+		echEdit := j.single >= 0 && j.visit == 1 && i%3 == 0 && (j.single == 0 || j.single == 2 || j.single == 3 || j.single == 4 || j.single == 7) && targetHasECH(tg)
+		if echFlavour || echEdit {
+			if !echEdit {
+				nEdits = 0
+			}
+			echFlavour = true
 			scfg.EncryptedClientHelloKeys = peer.ECHServerKeys(true, c01ECHKey())
+			if echEdit {
+				r.Count("ech_connections_with_an_edit", 1)
+			}
 		}
 		prep := tg.Prepare()
 		opts := peer.Opts{Prepare: func(u *tls.UConn) error {
@@ -642,4 +652,15 @@ func TestC01(t *testing.T) {
 		r.Inconclusive(fmt.Sprintf("only %d of 8 edit kinds exercised", len(editSeen)))
 	}
 	r.Assume("with a real ECH configuration (one connection in eight) the hello compared is the outer one and no edits are applied; what the inner hello carries is C15's subject")
+}
+
+// targetHasECH: the target's spec carries an ECH extension (GREASE or real), so that a
+// connection with an ECH config list can encode its offer.
+func targetHasECH(tg Target) bool {
+	if tg.Spec != nil {
+		sp, err := tg.Spec()
+		return err == nil && specHasECH(sp)
+	}
+	sp, err := tls.UTLSIdToSpec(tg.ID)
+	return err == nil && specHasECH(&sp)
 }
